@@ -148,7 +148,11 @@ PROPS["C06"] = dict(
                               "Sth.C06_window_weak_compare_resurrects", "Sth.C06_refused_path_records_old_twice", "Sth.C06_window_example_hypotheses",
                               "Sth.C06_handover_split", "Sth.C06_handover_window_invisible", "Sth.C06_handover_flush_succeeds", "Sth.C06_handover_window_example",
                               "Sth.C06_igc_free_verdict_stable", "Sth.C06_igc_late_mark_safe", "Sth.C06_igc_busy_verdict_not_stable"],
-    runs=[dict(engine="sched", quick=500, thorough=20000, extra=["-profile", "c06"], nontrivial=["gc-overlaps-call", "collector-window"])],
+    runs=[dict(engine="sched", quick=500, thorough=20000, extra=["-profile", "c06"], nontrivial=["gc-overlaps-call", "collector-window"]),
+          # the schedules in which the collectors run BETWEEN calls (every schedule of the statement includes them): the sequential engine
+          # with both collectors over several cycles, byte-compared with the model; its directed corpus holds the multi-cycle histories
+          # (merge of a deleted record, resumed cycle) that a single scheduled cycle does not reach
+          dict(engine="seq", quick=150, thorough=5000, extra=["-profile", "c04"], nontrivial=["igc-acted", "pgc-acted"])],
     shrink_budget=0,
     rule="as C05 with an extra thread running primary GC (low-use 0/50/85) and index GC cycles over a store prepared with superseded "
          "records in several files; collector sub-steps (busy check, mark, merge, truncate, header, unlink, hand-over, relocation) are "
@@ -198,10 +202,13 @@ PROPS["C13"] = dict(
 )
 
 PROPS["C11"] = dict(
-    modules=["Sth.Props.C01", "Sth.Props.C08", "Sth.Props.C11", "Sth.Props.C13H"],
+    modules=["Sth.Props.C01", "Sth.Props.C08", "Sth.Props.C11", "Sth.Props.C13H", "Sth.Props.C11D", "Sth.Props.C11E", "Sth.Props.C11F", "Sth.Props.C11G"],
     theorems=list(CORE_RL) + ["Sth.C11_index_file_released", "Sth.C11_index_released_stays", "Sth.C11_index_reap_free_file", "Sth.C11_primary_file_released",
                                 "Sth.C11_no_growth_index", "Sth.C11_no_growth_primary", "Sth.C11_relocation_pools_a_copy", "Sth.C11_reap_pools_at_most_two",
-                                "Sth.C11_fixed_point_primary", "Sth.C11_low_use_visit", "Sth.C11_primary_file_released_unconditional"],
+                                "Sth.C11_fixed_point_primary", "Sth.C11_low_use_visit", "Sth.C11_primary_file_released_unconditional",
+                                "Sth.C11_low_use_drained_bound", "Sth.C11_low_use_round", "Sth.C11_index_cycle_visits_all", "Sth.C11_index_cycle_stale_resume",
+                                "Sth.C11_primary_files_short", "Sth.C11_visited_stable", "Sth.C11_primary_file_released_closed",
+                                "Sth.C11_cut_handover_pass_file_released"],
     runs=[dict(engine="seq", quick=200, thorough=10000, extra=["-profile", "c11"], nontrivial=["c11-dead-primary-files", "c11-unreferenced-index-files"]),
           dict(engine="crash", quick=48, thorough=600, extra=["-profile", "c11d"], nontrivial=["c11-drain-after-recovery"])],
     crash_lines=True,
